@@ -56,6 +56,13 @@ class CondPtr:
 def ite(c, a, b):
     if a is b:
         return a
+    c = z3.simplify(c) if not isinstance(c, bool) else z3.BoolVal(c)
+    if z3.is_true(c):
+        return a
+    if z3.is_false(c):
+        return b
+    if isinstance(a, Inf) or isinstance(b, Inf):
+        raise ExtractionBreak("mathvc: symbolic choice involving an infinity")
     if isinstance(a, (Ptr, CondPtr)) or isinstance(b, (Ptr, CondPtr)):
         if isinstance(a, Ptr) and a.same(b):
             return a
@@ -78,6 +85,32 @@ def ite(c, a, b):
     if z3.is_int(a) != z3.is_int(b):
         a, b = toreal(a), toreal(b)
     return z3.If(c, a, b)
+
+
+class Inf:
+    """+/- infinity literal (only comparisons and selection are supported)"""
+    def __init__(self, sign):
+        self.sign = sign
+
+    def __neg__(self):
+        return Inf(-self.sign)
+
+
+def cmp(op, l, r):
+    """comparison with constant folding for infinities (finite operands assumed otherwise)"""
+    li, ri = isinstance(l, Inf), isinstance(r, Inf)
+    if li or ri:
+        if li and ri:
+            a, b = l.sign, r.sign
+        elif li:
+            a, b = l.sign * 2, 0
+        else:
+            a, b = 0, r.sign * 2
+        return z3.BoolVal({"<": a < b, ">": a > b, "<=": a <= b, ">=": a >= b, "==": a == b, "!=": a != b}[op])
+    l, r = tonum(l), tonum(r)
+    if z3.is_int(l) != z3.is_int(r):
+        l, r = toreal(l), toreal(r)
+    return {"<": lambda: l < r, ">": lambda: l > r, "<=": lambda: l <= r, ">=": lambda: l >= r, "==": lambda: l == r, "!=": lambda: l != r}[op]()
 
 
 class State:
@@ -132,6 +165,7 @@ class Evaluator:
         self.models = models or {}
         self.globals = C([], "frame")
         self.depth = 0
+        self.rcp_cache = {}
 
     # ---- values
     def num(self, v):
@@ -183,6 +217,11 @@ class Evaluator:
     def store(self, st, p, v):
         """store value v at location p (aggregates are copied field-wise into the existing aggregate)"""
         g = z3.simplify(st.returned)
+        if isinstance(v, Inf):
+            if not z3.is_false(g):
+                raise ExtractionBreak("mathvc: conditional store of an infinity")
+            p.set(st, v)
+            return
         if isinstance(v, C):
             old = None
             try:
@@ -214,10 +253,10 @@ class Evaluator:
         mm = re.match(r"verif_std_(min|max)_\w+$", fname)
         if mm:
             pa, pb = args
-            va, vb = tonum(pa.get(st)), tonum(pb.get(st))
+            va, vb = pa.get(st), pb.get(st)
             if mm.group(1) == "min":
-                return ite(vb < va, pb, pa)
-            return ite(va < vb, pb, pa)
+                return ite(cmp("<", vb, va), pb, pa)
+            return ite(cmp("<", va, vb), pb, pa)
         f = self.tr.funcs.get(fname)
         if f is None or f.body is None:
             raise ExtractionBreak("mathvc: call to '%s' which has no body and no model" % fname)
@@ -404,10 +443,18 @@ class Evaluator:
         if op == "*":
             return x * y
         if op == "/" and self.mode == "real":
-            r = self.newsym("rcp")
-            self.side.append(y * r == 1)
-            self.oblig.append(("divisor_nonzero", y != 0))
-            return x * r
+            y = z3.simplify(y)
+            key = y.sexpr()
+            r = self.rcp_cache.get(key)
+            if r is None:
+                if z3.is_rational_value(y) and y.numerator_as_long() != 0:
+                    r = z3.RealVal(1) / y
+                else:
+                    r = self.newsym("rcp")
+                    self.side.append(y * r == 1)
+                    self.oblig.append(("divisor_nonzero", y != 0))
+                self.rcp_cache[key] = r
+            return z3.simplify(x * r)
         if op in ("/", "%"):
             self.oblig.append(("divisor_nonzero", y != 0))
             q, rr = self.newsym("q"), self.newsym("r")
@@ -428,7 +475,7 @@ class Evaluator:
         if k == "un":
             v = self.ev(a[1], st)
             if a[0] == "-":
-                return -tonum(v)
+                return -v if isinstance(v, Inf) else -tonum(v)
             if a[0] == "+":
                 return tonum(v)
             if a[0] == "!":
@@ -443,21 +490,8 @@ class Evaluator:
             l, r = self.ev(a[1], st), self.ev(a[2], st)
             if op in ("+", "-", "*", "/", "%"):
                 return self.arith(op, l, r)
-            l, r = tonum(l), tonum(r)
-            if z3.is_int(l) != z3.is_int(r):
-                l, r = toreal(l), toreal(r)
-            if op == "<":
-                return l < r
-            if op == ">":
-                return l > r
-            if op == "<=":
-                return l <= r
-            if op == ">=":
-                return l >= r
-            if op == "==":
-                return l == r
-            if op == "!=":
-                return l != r
+            if op in ("<", ">", "<=", ">=", "==", "!="):
+                return cmp(op, l, r)
             raise ExtractionBreak("mathvc: binary operator " + op)
         if k == "cast":
             v = self.ev(a[1], st)
@@ -504,6 +538,10 @@ class Evaluator:
         t = t.strip()
         if t.startswith("((void*)0)"):
             return None
+        if t in ("__builtin_inff()", "__builtin_inf()", "(1.0/0.0)"):
+            return Inf(1)
+        if t in ("(-__builtin_inff())", "(-__builtin_inf())"):
+            return Inf(-1)
         m = re.match(r"^\(?(-?[0-9.]+(?:[eE][-+]?[0-9]+)?)\)?(f|u|l|ul|ll|ull|F|L)?$", t)
         if m:
             s = m.group(1)
@@ -524,6 +562,8 @@ class Evaluator:
 
 
 def tonum(v):
+    if isinstance(v, Inf):
+        raise ExtractionBreak("mathvc: arithmetic on an infinity")
     if isinstance(v, bool):
         return z3.IntVal(1 if v else 0)
     if isinstance(v, (int,)):
@@ -591,4 +631,36 @@ def prove(ev, assumptions, goal, timeout_ms=60000):
         return "proved", None, dt, s
     if r == z3.sat:
         return "refuted", s.model(), dt, s
+    # portfolio fallback: other installed solvers on the same VC (only 'unsat' is taken from them)
+    import subprocess, tempfile, os
+    txt = "(set-logic ALL)\n" + s.to_smt2()
+    fd, path = tempfile.mkstemp(suffix=".smt2")
+    os.write(fd, txt.encode()); os.close(fd)
+    try:
+        procs = []
+        for cmd in (["z3", "-T:%d" % max(5, timeout_ms // 1000), path], ["cvc5", "--tlimit=%d" % timeout_ms, path]):
+            try:
+                procs.append((cmd[0], subprocess.Popen(cmd, stdout=subprocess.PIPE, stderr=subprocess.DEVNULL, text=True)))
+            except OSError:
+                pass
+        t1 = time.time()
+        verdict = None
+        while procs and time.time() - t1 < timeout_ms / 1000.0 + 5:
+            for (nm, p) in list(procs):
+                if p.poll() is not None:
+                    out = p.stdout.read().strip().splitlines()
+                    procs.remove((nm, p))
+                    if out and out[0].strip() == "unsat":
+                        verdict = nm
+                        break
+            if verdict:
+                break
+            time.sleep(0.2)
+        for (nm, p) in procs:
+            p.kill()
+        dt = time.time() - t0
+        if verdict:
+            return "proved", None, dt, s
+    finally:
+        os.remove(path)
     return "unknown", None, dt, s
